@@ -5,6 +5,7 @@ import (
 	"fmt"
 	"math/rand"
 	"sort"
+	"strconv"
 	"strings"
 	"sync"
 
@@ -27,8 +28,12 @@ type shape struct {
 	tagFmt string // fmt with one %d
 	pre    func(id string) string
 	post   func(id string) string
-	whole  func(id string, n int) string
+	// whole-key shapes: key = wpre(id) + decimal counter + wpost(id)
+	wpre  func(id string) string
+	wpost func(id string) string
 }
+
+func (sh shape) whole(id string, n int) string { return sh.wpre(id) + strconv.Itoa(n) + sh.wpost(id) }
 
 func lit(s string) func(string) string { return func(string) string { return s } }
 func withID(pre, post string) func(string) string {
@@ -50,15 +55,15 @@ var shapes = []shape{
 	{name: "utf8{tag}", tagFmt: "日%d", pre: lit("é"), post: withID("", "本")},
 	{name: "{tag with spaces\\r\\n}", tagFmt: "a b\r\n%d", pre: lit(""), post: withID("$3\r\n", "")},
 	// whole-key
-	{name: "plain", whole: func(id string, n int) string { return fmt.Sprintf("k:%s:%d", id, n) }},
-	{name: "{}{a}", whole: func(id string, n int) string { return fmt.Sprintf("{}{a}%s%d", id, n) }},
-	{name: "{}", whole: func(id string, n int) string { return fmt.Sprintf("{}%s%d", id, n) }},
-	{name: "a{}{b}c", whole: func(id string, n int) string { return fmt.Sprintf("a{}{b%d}c%s", n, id) }},
-	{name: "{open", whole: func(id string, n int) string { return fmt.Sprintf("{t%d%s", n, id) }},
-	{name: "close}", whole: func(id string, n int) string { return fmt.Sprintf("a}%s%d", id, n) }},
-	{name: "}{", whole: func(id string, n int) string { return fmt.Sprintf("}%s%d{", id, n) }},
-	{name: "nonutf8-plain", whole: func(id string, n int) string { return fmt.Sprintf("\xc3\x28%s\xff%d", id, n) }},
-	{name: "empty-ish", whole: func(id string, n int) string { return fmt.Sprintf("%s\x00%d", id, n) }},
+	{name: "plain", wpre: withID("k:", ":"), wpost: lit("")},
+	{name: "{}{a}", wpre: withID("{}{a}", ""), wpost: lit("")},
+	{name: "{}", wpre: withID("{}", ""), wpost: lit("")},
+	{name: "a{}{b}c", wpre: lit("a{}{b"), wpost: withID("}c", "")},
+	{name: "{open", wpre: lit("{t"), wpost: withID("", "")},
+	{name: "close}", wpre: withID("a}", ""), wpost: lit("")},
+	{name: "}{", wpre: withID("}", ""), wpost: lit("{")},
+	{name: "nonutf8-plain", wpre: withID("\xc3\x28", "\xff"), wpost: lit("")},
+	{name: "empty-ish", wpre: withID("", "\x00"), wpost: lit("")},
 }
 
 var nTagShapes = func() int {
@@ -109,13 +114,51 @@ func keyInSlot(sh shape, id string, slot int) ([]byte, bool) {
 		k := []byte(sh.pre(id) + "{" + fmt.Sprintf(sh.tagFmt, n) + "}" + sh.post(id))
 		return k, ref.HashSlot(k) == slot
 	}
+	// brute force with a table-driven CRC (search only); the hit is confirmed with ref.HashSlot
+	pre, post := []byte(sh.wpre(id)), []byte(sh.wpost(id))
+	buf := make([]byte, 0, len(pre)+len(post)+8)
 	for n := 0; n < 400000; n++ {
-		k := []byte(sh.whole(id, n))
-		if ref.HashSlot(k) == slot {
-			return k, true
+		buf = append(buf[:0], pre...)
+		buf = strconv.AppendInt(buf, int64(n), 10)
+		buf = append(buf, post...)
+		if fastSlot(buf) != slot {
+			continue
+		}
+		if ref.HashSlot(buf) == slot {
+			return append([]byte{}, buf...), true
 		}
 	}
 	return nil, false
+}
+
+var crcTab = func() (t [256]uint16) {
+	for i := range t {
+		c := uint16(i) << 8
+		for b := 0; b < 8; b++ {
+			if c&0x8000 != 0 {
+				c = c<<1 ^ 0x1021
+			} else {
+				c <<= 1
+			}
+		}
+		t[i] = c
+	}
+	return
+}()
+
+// fastSlot: search helper only (never used to judge): CRC16/XMODEM of the hashed part, mod 16384.
+func fastSlot(k []byte) int {
+	h := k
+	if s := bytes.IndexByte(k, '{'); s >= 0 {
+		if e := bytes.IndexByte(k[s+1:], '}'); e > 0 {
+			h = k[s+1 : s+1+e]
+		}
+	}
+	var c uint16
+	for _, b := range h {
+		c = c<<8 ^ crcTab[byte(c>>8)^b]
+	}
+	return int(c) % ref.Slots
 }
 
 // ---------------------------------------------------------------------------------------
@@ -289,8 +332,8 @@ func (g *genCtx) keyFn(id string, slotOf func(i int) int, prefix func(i int) str
 					p := sh.pre
 					psh.pre = func(id string) string { return pfx + p(id) }
 				} else {
-					w := sh.whole
-					psh.whole = func(id string, n int) string { return pfx + w(id, n) }
+					w := sh.wpre
+					psh.wpre = func(id string) string { return pfx + w(id) }
 				}
 				k, ok = keyInSlot(psh, id, slotOf(i))
 			} else {
